@@ -63,6 +63,8 @@ static void c13_sym2(Buf *b) {
     if (!h) { tr("sym2 rc=999 note=nokey alg=%u bits=%d", alg, bits); return; }
     uint16_t mode = MODES[rnd(5)];
     uint8_t iv[16]; c13_fill(iv, 16);
+    /* counters about to carry: the low bytes all ff (or ff..fe), the carry then runs through every byte up to the first */
+    if (mode == ALG_CTR && chance(40)) { int keep = chance(60) ? 1 : rnd(bs); for (int q = keep; q < bs; q++) iv[q] = 0xff; if (chance(40)) iv[bs - 1] = 0xfe - rnd(3); if (keep == 0 && chance(50)) iv[0] = 0xff; }
     uint8_t ivcur[16]; memcpy(ivcur, iv, 16);
     for (int call = 0; call < 2; call++) {
         int blocks = 1 + rnd(4); int n = bs * blocks; if ((mode == ALG_CFB || mode == ALG_CTR || mode == ALG_OFB) && call == 1 && chance(50)) n -= 1 + rnd(bs - 1);
